@@ -108,9 +108,13 @@ Section Proofs.
         inversion H; subst. simpl. rewrite Hh. eauto.
   Qed.
 
-  (* ---------- with the frame hypothesis ---------- *)
+  (* ---------- with the frame hypothesis ----------
+     Inv is an invariant of the in-batch state (concretely: the session carries no unpublished
+     change); a failing item met in such a state leaves state and placeholder as they were. *)
+  Variable Inv : St -> Prop.
+  Hypothesis inv_step : forall h s p it o s' p', Inv s -> handle h s p it = (o, s', p') -> Inv s'.
   Hypothesis handle_fail_frame : forall h s p it r s' p',
-      handle h s p it = (Fail r, s', p') -> s' = s /\ p' = p.
+      Inv s -> handle h s p it = (Fail r, s', p') -> s' = s /\ p' = p.
 
   Lemma succeeded_nil_r : forall its, succeeded its [] = [].
   Proof. destruct its; reflexivity. Qed.
@@ -118,17 +122,18 @@ Section Proofs.
   (* failed items do not disturb the others: the batch without them gives the same
      answers for the remaining items, the same final state and the same placeholder *)
   Lemma run_without_failed : forall h c its s p rs s' p',
-      run h c s p its = (rs, s', p') ->
+      Inv s -> run h c s p its = (rs, s', p') ->
       run h c s p (succeeded its rs) = (filter r_ok rs, s', p').
   Proof.
-    induction its as [|it rest IH]; intros s p rs s' p' H; simpl in H.
+    induction its as [|it rest IH]; intros s p rs s' p' Hinv H; simpl in H.
     - inversion H; subst. reflexivity.
     - destruct (handle h s p it) as [[o s1] p1] eqn:Hh.
+      assert (Hinv1 := inv_step _ _ _ _ _ _ _ Hinv Hh).
       destruct o as [|reason]; simpl in H.
       + destruct (run h c s1 p1 rest) as [[rs2 s2] p2] eqn:Hr.
         inversion H; subst. simpl. rewrite Hh. simpl.
-        now rewrite (IH _ _ _ _ _ Hr).
-      + destruct (handle_fail_frame _ _ _ _ _ _ _ Hh) as [-> ->].
+        now rewrite (IH _ _ _ _ _ Hinv1 Hr).
+      + destruct (handle_fail_frame _ _ _ _ _ _ _ Hinv Hh) as [-> ->].
         destruct c; simpl in H.
         * destruct (run h true s p rest) as [[rs2 s2] p2] eqn:Hr.
           inversion H; subst. simpl. eauto.
@@ -136,10 +141,10 @@ Section Proofs.
   Qed.
 
   Lemma run_all_failed_no_trace : forall h c its s p rs s' p',
-      run h c s p its = (rs, s', p') -> forallb (fun r => negb (r_ok r)) rs = true -> s' = s /\ p' = p.
+      Inv s -> run h c s p its = (rs, s', p') -> forallb (fun r => negb (r_ok r)) rs = true -> s' = s /\ p' = p.
   Proof.
-    intros h c its s p rs s' p' H Hall.
-    apply run_without_failed in H.
+    intros h c its s p rs s' p' Hinv H Hall.
+    apply run_without_failed in H; [|assumption].
     assert (Hs : succeeded its rs = []).
     { clear H. revert its. induction rs as [|r rs IH]; intros its.
       - apply succeeded_nil_r.
@@ -266,6 +271,8 @@ Section Proofs.
       reflexivity.
   Qed.
 
+  Hypothesis inv_open : forall st, Inv (open_session st).
+
   Theorem process_without_failed : forall st h its rs st',
       process_request st h its = (inr rs, st') ->
       process_request st h (succeeded its rs) = (inr (filter r_ok rs), st').
@@ -273,7 +280,7 @@ Section Proofs.
     intros st h its rs st' H.
     destruct (process_results _ _ _ _ _ H) as [Hh [Hi [s' [p' [Hr ->]]]]].
     unfold Generic.process_request. rewrite Hh, (check_ids_succeeded _ rs Hi).
-    now rewrite (run_without_failed _ _ _ _ _ _ _ _ Hr).
+    now rewrite (run_without_failed _ _ _ _ _ _ _ _ (inv_open st) Hr).
   Qed.
 
   (* ---------- generalisation: any class of items that leave state and placeholder alone
@@ -284,7 +291,7 @@ Section Proofs.
     Notation kept_results := (kept_results I keep).
     (* a dropped item left everything as it was ... *)
     Hypothesis dropped_frame : forall h s p it o s' p',
-        handle h s p it = (o, s', p') -> keep it (mk_result it o) = false -> s' = s /\ p' = p.
+        Inv s -> handle h s p it = (o, s', p') -> keep it (mk_result it o) = false -> s' = s /\ p' = p.
     (* ... and only successful items are kept (so that Stop does not cut the reduced batch short) *)
     Hypothesis kept_ok : forall it o, keep it (mk_result it o) = true -> is_ok o = true.
 
@@ -292,18 +299,19 @@ Section Proofs.
     Proof. destruct its; reflexivity. Qed.
 
     Lemma run_kept : forall h c its s p rs s' p',
-        run h c s p its = (rs, s', p') ->
+        Inv s -> run h c s p its = (rs, s', p') ->
         run h c s p (kept its rs) = (kept_results its rs, s', p').
     Proof.
-      induction its as [|it rest IH]; intros s p rs s' p' H; simpl in H.
+      induction its as [|it rest IH]; intros s p rs s' p' Hinv H; simpl in H.
       - inversion H; subst. reflexivity.
       - destruct (handle h s p it) as [[o s1] p1] eqn:Hh.
+        assert (Hinv1 := inv_step _ _ _ _ _ _ _ Hinv Hh).
         destruct (keep it (mk_result it o)) eqn:Hk.
         + assert (Hok := kept_ok _ _ Hk). rewrite Hok in H. simpl in H.
           destruct (run h c s1 p1 rest) as [[rs2 s2] p2] eqn:Hr.
           inversion H; subst. simpl. rewrite Hk. simpl. rewrite Hh, Hok. simpl.
-          now rewrite (IH _ _ _ _ _ Hr).
-        + destruct (dropped_frame _ _ _ _ _ _ _ Hh Hk) as [-> ->].
+          now rewrite (IH _ _ _ _ _ Hinv1 Hr).
+        + destruct (dropped_frame _ _ _ _ _ _ _ Hinv Hh Hk) as [-> ->].
           destruct (negb (is_ok o) && negb c).
           * inversion H; subst. simpl. rewrite Hk, kept_nil_r. destruct rest; reflexivity.
           * destruct (run h c s p rest) as [[rs2 s2] p2] eqn:Hr.
@@ -346,7 +354,7 @@ Section Proofs.
       intros st h its rs st' H.
       destruct (process_results _ _ _ _ _ H) as [Hh [Hi [s' [p' [Hr ->]]]]].
       unfold Generic.process_request. rewrite Hh, (check_ids_kept _ rs Hi).
-      now rewrite (run_kept _ _ _ _ _ _ _ _ Hr).
+      now rewrite (run_kept _ _ _ _ _ _ _ _ (inv_open st) Hr).
     Qed.
   End Kept.
 
@@ -357,6 +365,6 @@ Section Proofs.
   Proof.
     intros st h its rs st' H Hall.
     destruct (process_results _ _ _ _ _ H) as [_ [_ [s' [p' [Hr ->]]]]].
-    destruct (run_all_failed_no_trace _ _ _ _ _ _ _ _ Hr Hall) as [-> _]. apply close_open.
+    destruct (run_all_failed_no_trace _ _ _ _ _ _ _ _ (inv_open st) Hr Hall) as [-> _]. apply close_open.
   Qed.
 End Proofs.
